@@ -182,7 +182,7 @@ def run(tier, seed):
                     if canon(got) == canon(r['pred']):
                         run.replay_ok += 1
                         run.violation('%s %s' % (vn, r['name']), {'property': 'C05', 'rule': r['name'], 'call': r['desc'],
-                                                                   'script': r['script'], 'native': got})
+                                                                   'script': r['script'], 'native': nat})
                     else:
                         run.inconclusive_('E-MIR counterexample does not reproduce: %s native=%s' % (r['desc'], canon(got)))
                 else:
